@@ -385,6 +385,10 @@ def gen_scenario(rng, max_reqs=3, max_pairs=3, small=False, malformed=False, mix
                 sp.op_store(q, j, v)
         res = alloc_addr()
         reslen = OK_FIELDS_K * number
+        if role == "create" and rng.random() < 0.4:
+            # a buffer sized for the program's largest request: LONGER than this request needs
+            # (the pair count of a create request comes from its arguments, not from the array)
+            reslen += OK_FIELDS_K * rng.choice([1, 2, 3])
         if malformed and rng.random() < 0.3:
             reslen = max(0, reslen - rng.choice([1, 5, 10]))
         sp.op_array(res, reslen)
@@ -1717,7 +1721,8 @@ class TokenExecutor(SteppingExecutor):
 def gen_hw_case(rng):
     hw = rng.choice(["generic", "nv", "nv", "nv+transpiler"])
     number = rng.randint(1, 3)
-    return {"hw": hw, "role": rng.choice(["create", "recv"]), "tp": rng.choice(["K", "K", "K", "M"]),
+    return {"swap": rng.random() < 0.5,
+            "hw": hw, "role": rng.choice(["create", "recv"]), "tp": rng.choice(["K", "K", "K", "M"]),
             "number": number, "sequential": rng.random() < 0.35, "phi": rng.random() < 0.5,
             "nq": rng.randint(max(2, number), 5), "rseed": rng.randrange(1 << 30)}
 
@@ -1729,9 +1734,10 @@ def all_hw_cases():
             for number in (1, 2, 3):
                 for seq in (False, True):
                     out.append({"hw": hw, "role": role, "tp": "K", "number": number, "sequential": seq,
-                                "phi": False, "nq": 4, "rseed": 7 * number + (1 if seq else 0)})
+                                "phi": False, "nq": 4, "rseed": 7 * number + (1 if seq else 0),
+                                "swap": (number + (1 if seq else 0)) % 2 == 0})
                 out.append({"hw": hw, "role": role, "tp": "M", "number": number, "sequential": False,
-                            "phi": True, "nq": 4, "rseed": 11 * number})
+                            "phi": True, "nq": 4, "rseed": 11 * number, "swap": number % 2 == 1})
     return out
 
 
@@ -1744,15 +1750,20 @@ def run_hw_case(c, pair_of_handle=None):
     SharedMemoryManager.reset_memories()
     BaseNetQASMConnection._app_ids.clear()
     BaseNetQASMConnection._app_names.clear()
-    DebugConnection.node_ids = {NODE_NAME: NODE_ID, REMOTE_NAME: 1, REMOTE2_NAME: 2}
+    # node placement: the local node is 0 and the remote 1 — or (`swap`) the local node is 1 and the remote
+    # party sits on node id 0 (a falsy id)
+    local_id, remote_id = (1, 0) if c.get("swap") else (NODE_ID, 1)
+    DebugConnection.node_ids = {NODE_NAME: local_id, REMOTE_NAME: remote_id, REMOTE2_NAME: 2}
     ex = TokenExecutor(name=NODE_NAME)
+    ex._verif_node_id = local_id
     ex.network_stack = RecordingStack()
     keep = c["tp"] == "K"
     resps = []
     for k in range(c["number"]):
-        r = RespSpec(k, "K" if keep else "M", 1, purpose_of(1, 0), 1 if c["role"] == "recv" else 0, PHYS0 + k, rrng)
+        r = RespSpec(k, "K" if keep else "M", remote_id, purpose_of(remote_id, 0),
+                     1 if c["role"] == "recv" else 0, PHYS0 + k, rrng)
         r.form10 = rrng.random() < 0.3
-        r.seq = 100 + k
+        r.seq = k
         r.goodness = boundary(rrng)
         r.gtime = boundary(rrng)
         r.cid = boundary(rrng, 1 << 16)
@@ -1831,6 +1842,13 @@ def run_hw_case(c, pair_of_handle=None):
         else:
             for i, q in enumerate(qubits):
                 info = q.entanglement_info
+                # accessor: the NAME of the node the qubit is entangled with
+                try:
+                    name = q.remote_entangled_node
+                except Exception as e:
+                    name = "raises %s" % type(e).__name__
+                out["checks"].append(("remote_entangled_node of returned qubit %d (remote node id %d)"
+                                      % (i, remote_id), name, REMOTE_NAME))
                 out["layout"].append([i, q.qubit_id, info.type._index // OK_FIELDS_K])
                 for f, v in zip(info._fields, info):
                     out["checks"].append(("entanglement_info.%s of returned qubit %d (virtual %d, holds pair %d)"
